@@ -81,6 +81,11 @@ def denote_runs(ctx, full):
 def validate_denote(ctx, trace, pid, label):
     """TargetsCheck over a file of Run records; on rejection the offending run is reported and removed"""
     runs = vf.read_ndjson(trace)
+    for c in [r for r in runs if r.get("ev") == "Crash"]:
+        # the harness process died in the code under test (panic / data race with a frame of /repo on the stack)
+        ctx.violation("%s:denote:crash:%s" % (pid, c.get("kind")), "the generators crashed while producing the requests of a concrete target: %s %s" %
+                      (c.get("text"), c.get("frames")), replay={"property": pid, "trace_spec": "TargetsCheck", "run": [c]})
+    runs = [r for r in runs if r.get("ev") == "Run"]
     ctx.cov["traces_validated_against_impl"] += len(runs)
     ctx.count(len(runs), [("denote", r["id"], r["cmd"]) for r in runs])
     reports = 0
